@@ -11,7 +11,8 @@
   ones (``sched.coopify``; ``chan.lock`` and ``chan.out_buffer_cv`` keep sharing one lock).
 * ``FakeTransport._send_user_message`` is a yield point and appends the parsed message to
   ``wire`` (and ``("wire", entry)`` to the scheduler log).  Like the real method it drops the
-  message silently when the transport is no longer active.
+  message silently when the transport is no longer active.  Entries: ``type``, ``chan``, ``task``, ``seq`` plus
+  ``data`` (DATA / EXTENDED_DATA, the latter also ``code``), ``n`` (WINDOW_ADJUST), ``req`` / ``want_reply`` (REQUEST).
 * ``FakeTransport.deliver(ptype, ...)`` dispatches an inbound channel message the way
   ``Transport.run`` does (lookup in ``_channels`` by id, ``_channel_handler_table``), to be
   called from a "transport" task.  ``lose()`` mirrors the cleanup at the end of
@@ -115,6 +116,9 @@ class FakeTransport:
             ent["data"] = m.get_binary()
         elif ptype == MSG_CHANNEL_WINDOW_ADJUST:
             ent["n"] = m.get_int()
+        elif ptype == MSG_CHANNEL_REQUEST:
+            ent["req"] = m.get_text()
+            ent["want_reply"] = m.get_boolean()
         return ent
 
     # -- what the harness calls -------------------------------------------------------
